@@ -443,6 +443,8 @@ func knownValueOf(typ attr.Type) attr.Value {
 		return SimTimeValue{Value: time.Unix(1234567, 89).UTC()}
 	case SimDurationType:
 		return SimDurationValue{Value: 77 * time.Second}
+	case simInt32T:
+		return SimInt32Value{Value: 33}
 	}
 	switch typ {
 	case types.StringType:
@@ -488,6 +490,9 @@ func withPayload(v attr.Value, typ attr.Type) attr.Value {
 			x.Null, x.Unknown = null, unknown
 			return x
 		case SimDurationValue:
+			x.Null, x.Unknown = null, unknown
+			return x
+		case SimInt32Value:
 			x.Null, x.Unknown = null, unknown
 			return x
 		}
